@@ -998,7 +998,7 @@ Section Stages.
       apply (step_helper_end f c4 R_helper_block_end s9 e9 l9 rest n' k d m3); try assumption; try reflexivity.
       apply first_ge_next; assumption.
     - (* i_rawblock *)
-      intros lo s0 e0 l0 s1 e1 s2 e2 l2 Hlo Hse0 Ht0 He0 Hse1 He12 Hse2 Ht2 rest n k d Hn Hs Hf HK fuel c Hst.
+      intros lo s0 e0 l0 s1 e1 e2 l2 Hlo Hse0 Ht0 He0 Hse1 He12 Ht2 rest n k d Hn Hs Hf HK fuel c Hst.
       split_SP.
       rewrite <- ?app_assoc, <- ?app_comm_cons.
       destruct n as [|n']; [lia|].
@@ -1011,7 +1011,7 @@ Section Stages.
       { intros f. apply (step_raw_block_text f c1 s1 e1 _ (S n') (S k) d e0); try assumption; lia. }
       intros fuel2 c2 Hst2.
       eapply loop_step; [|exact HK]. intros f.
-      apply (step_helper_end f c2 R_raw_block_end s2 e2 l2 rest n' k d e1); try assumption; try reflexivity; try lia.
+      apply (step_helper_end f c2 R_raw_block_end e1 e2 l2 rest n' k d e1); try assumption; try reflexivity; try lia.
       apply first_ge_next; assumption.
     - (* i_dblock *)
       intros lo rs re s0 e0 l0 body m1 s9 e9 l9 Hp Hlo Hse0 Ht0 Hb IHb Hm1 Hse9 Ht9
